@@ -275,9 +275,13 @@ def popQueued : List Pool → Option (Nat × List Pool)
       | [] => (popQueued ps).map (fun r => (r.1, p :: r.2))
     else (popQueued ps).map (fun r => (r.1, p :: r.2))
 
-/-- What the environment decides during one `Work::run`. -/
-structure Choices where
-  dirty : Nat → Option Bool          -- check_build_dirty(id): some dirty? / none = it returned Err
+/-- What the environment decides during one `Work::run`.  `E` is whatever the dirtiness check
+    and the recording of finished commands depend on and change (file system, stat cache, the
+    log: Model/Work); the scheduler only threads it. -/
+structure Choices (E : Type) where
+  check : E → Nat → Option Bool × E  -- check_build_dirty(id): some dirty? / none = it returned Err
+  onSuccess : E → Nat → E            -- a command succeeded: its effects + record_finished
+  onAdopt : E → Nat → E              -- `-t restat`: record_finished without running
   adopt : Bool
   perms : List (List Nat)            -- one per ready_dependents call, in order
   finishes : List (Nat × Term)       -- one per Runner::wait, in order
@@ -291,8 +295,9 @@ inductive RunResult where
   | fuel
   deriving DecidableEq, Repr
 
-structure RunOut where
+structure RunOut (E : Type) where
   s : S
+  e : E
   result : RunResult
   perms : List (List Nat)
   finishes : List (Nat × Term)
@@ -329,75 +334,81 @@ def startLoop (g : Graph) (par : Nat) : Nat → S → Bool → Sum (S × Bool) (
     else .inl (s, progressed)
 
 /-- `while let Some(id) = pop_ready() { ... }`. -/
-def readyLoop (g : Graph) (c : Choices) : Nat → S → List (List Nat) → Bool → Sum (S × List (List Nat) × Bool) (S × RunResult)
-  | 0, s, _, _ => .inr (s, .fuel)
-  | fuel + 1, s, perms, progressed =>
+def readyLoop {E : Type} (g : Graph) (c : Choices E) : Nat → S → E → List (List Nat) → Bool →
+    Sum (S × E × List (List Nat) × Bool) (S × E × RunResult)
+  | 0, s, e, _, _ => .inr (s, e, .fuel)
+  | fuel + 1, s, e, perms, progressed =>
     match s.ready with
-    | [] => .inl (s, perms, progressed)
+    | [] => .inl (s, e, perms, progressed)
     | id :: rest =>
       let s0 := { s with ready := rest }
-      match c.dirty id with
-      | none => .inr (s0, .err "check_build_dirty")
-      | some dirty =>
-        if !dirty || c.adopt then
+      match c.check e id with
+      | (none, e1) => .inr (s0, e1, .err "check_build_dirty")
+      | (some dirty, e1) =>
+        if !dirty then
           match resToRun s0 (readyDependents g s0 id (perms.headD [])) with
-          | .inl s1 => readyLoop g c fuel s1 perms.tail true
-          | .inr r => .inr r
+          | .inl s1 => readyLoop g c fuel s1 e1 perms.tail true
+          | .inr (se, r) => .inr (se, e1, r)
+        else if c.adopt then
+          match resToRun s0 (readyDependents g s0 id (perms.headD [])) with
+          | .inl s1 => readyLoop g c fuel s1 (c.onAdopt e1 id) perms.tail true
+          | .inr (se, r) => .inr (se, e1, r)
         else
           match enqueueRun g s0 id with
-          | .inl s1 => readyLoop g c fuel s1 perms true
-          | .inr r => .inr r
+          | .inl s1 => readyLoop g c fuel s1 e1 perms true
+          | .inr (se, r) => .inr (se, e1, r)
 
 /-- `Work::run`. -/
-def runLoop (g : Graph) (par : Nat) (c : Choices) : Nat → S → List (List Nat) → List (Nat × Term) → RunOut
-  | 0, s, perms, fin => ⟨s, .fuel, perms, fin⟩
-  | fuel + 1, s, perms, fin =>
+def runLoop {E : Type} (g : Graph) (par : Nat) (c : Choices E) : Nat → S → E → List (List Nat) → List (Nat × Term) → RunOut E
+  | 0, s, e, perms, fin => ⟨s, e, .fuel, perms, fin⟩
+  | fuel + 1, s, e, perms, fin =>
     if s.pending ≤ 0 then
-      ⟨s, .ok (s.tasksFailed == 0), perms, fin⟩
+      ⟨s, e, .ok (s.tasksFailed == 0), perms, fin⟩
     else
       let s := { s with trace := Ev.update (countsList s.counts) :: s.trace }
       match startLoop g par (g.nBuilds + 1) s false with
-      | .inr (se, r) => ⟨se, r, perms, fin⟩
+      | .inr (se, r) => ⟨se, e, r, perms, fin⟩
       | .inl (s1, p1) =>
-        match readyLoop g c (g.nBuilds + 1) s1 perms false with
-        | .inr (se, r) => ⟨se, r, perms, fin⟩
-        | .inl (s2, perms2, p2) =>
-          if p1 || p2 then runLoop g par c fuel s2 perms2 fin
+        match readyLoop g c (g.nBuilds + 1) s1 e perms false with
+        | .inr (se, e2, r) => ⟨se, e2, r, perms, fin⟩
+        | .inl (s2, e2, perms2, p2) =>
+          if p1 || p2 then runLoop g par c fuel s2 e2 perms2 fin
           else if s2.running ≤ 0 then
-            if s2.tasksFailed > 0 then ⟨s2, .ok false, perms2, fin⟩
-            else ⟨s2, .bug, perms2, fin⟩
+            if s2.tasksFailed > 0 then ⟨s2, e2, .ok false, perms2, fin⟩
+            else ⟨s2, e2, .bug, perms2, fin⟩
           else
             match fin with
-            | [] => ⟨s2, .stuck, perms2, fin⟩
+            | [] => ⟨s2, e2, .stuck, perms2, fin⟩
             | (id, t) :: fin' =>
-              if s2.st id ≠ .running then ⟨s2, .stuck, perms2, fin⟩ else
+              if s2.st id ≠ .running then ⟨s2, e2, .stuck, perms2, fin⟩ else
               let s3 := { s2 with running := s2.running - 1, trace := Ev.finish id t :: s2.trace }
               match t with
               | .failure =>
                 match s3.failuresLeft with
                 | some n =>
                   -- `*failures_left -= 1` (usize): underflows for -k 0
-                  if n = 0 then ⟨s3, .panic "attempt to subtract with overflow", perms2, fin'⟩
-                  else if n - 1 = 0 then ⟨{ s3 with failuresLeft := some 0 }, .ok false, perms2, fin'⟩
+                  if n = 0 then ⟨s3, e2, .panic "attempt to subtract with overflow", perms2, fin'⟩
+                  else if n - 1 = 0 then ⟨{ s3 with failuresLeft := some 0 }, e2, .ok false, perms2, fin'⟩
                   else
                     match resToRun s3 (set g { s3 with failuresLeft := some (n - 1), tasksFailed := s3.tasksFailed + 1 } id .failed) with
-                    | .inl s4 => runLoop g par c fuel s4 perms2 fin'
-                    | .inr (se, r) => ⟨se, r, perms2, fin'⟩
+                    | .inl s4 => runLoop g par c fuel s4 e2 perms2 fin'
+                    | .inr (se, r) => ⟨se, e2, r, perms2, fin'⟩
                 | none =>
                   match resToRun s3 (set g { s3 with tasksFailed := s3.tasksFailed + 1 } id .failed) with
-                  | .inl s4 => runLoop g par c fuel s4 perms2 fin'
-                  | .inr (se, r) => ⟨se, r, perms2, fin'⟩
-              | .interrupted => ⟨s3, .ok false, perms2, fin'⟩
+                  | .inl s4 => runLoop g par c fuel s4 e2 perms2 fin'
+                  | .inr (se, r) => ⟨se, e2, r, perms2, fin'⟩
+              | .interrupted => ⟨s3, e2, .ok false, perms2, fin'⟩
               | .success =>
+                let e3 := c.onSuccess e2 id
                 match resToRun s3 (readyDependents g { s3 with tasksRun := s3.tasksRun + 1 } id (perms2.headD [])) with
-                | .inl s4 => runLoop g par c fuel s4 perms2.tail fin'
-                | .inr (se, r) => ⟨se, r, perms2, fin'⟩
+                | .inl s4 => runLoop g par c fuel s4 e3 perms2.tail fin'
+                | .inr (se, r) => ⟨se, e3, r, perms2, fin'⟩
 
 /-- Loop iterations that always suffice (proved in Props/C06): every iteration that continues
     moves some build forward in Want < Ready < Queued < Running < Done/Failed. -/
 def runFuel (g : Graph) : Nat := 6 * (g.nBuilds + 1) + 2
 
-def run (g : Graph) (par : Nat) (c : Choices) (s : S) : RunOut :=
-  runLoop g par c (runFuel g) s c.perms c.finishes
+def run {E : Type} (g : Graph) (par : Nat) (c : Choices E) (s : S) (e : E) : RunOut E :=
+  runLoop g par c (runFuel g) s e c.perms c.finishes
 
 end N2V.Sched
